@@ -44,6 +44,7 @@ DefStream ==
      wantAt   |-> 0,
      wantFl   |-> FALSE,    \* a flush completed after the reset call
      cleanAtWant |-> FALSE, \* stream was already closed cleanly when the call was made
+     apiCleanAtWant |-> FALSE,  \* ... or complete for the application (its END_STREAM accepted but not written yet): RST_STREAM neither owed nor forbidden
      sendDrop |-> FALSE, recvDrop |-> FALSE, respDrop |-> FALSE,
      apiEos   |-> FALSE,    \* the application finished its send side (eos / trailers)
      surfaced |-> FALSE,    \* returned by accept() / poll_push
@@ -512,6 +513,7 @@ StepApi(m, e, l) ==
                               !.wantCode = IF x.want = "" THEN (IF e.ch < 32768 THEN e.ch * 65536 + e.cl ELSE -2) ELSE x.wantCode,
                               !.wantAt = l,
                               !.cleanAtWant = IF x.want = "" THEN StreamClosedClean(x) ELSE x.cleanAtWant,
+                              !.apiCleanAtWant = IF x.want = "" THEN (x.i = "es" /\ x.apiEos /\ x.o # "es") ELSE x.apiCleanAtWant,
                               !.wantBeforeOpen = IF x.want = "" THEN x.o = "idle" ELSE x.wantBeforeOpen,
                               !.inSince = IF x.want = "" THEN 0 ELSE x.inSince,
                               !.inNeed = IF x.want = "" THEN 1 ELSE x.inNeed,
@@ -593,7 +595,7 @@ StepQ(m, e, l) ==
               THEN Check(m2, "C03.stream_leak", stuck = {}, l, IF stuck = {} THEN 0 ELSE CHOOSE s \in stuck : TRUE, stuck)
               ELSE m2
         \* C17: reset obligations
-        owing == {s \in DOMAIN m.st : /\ m.st[s].want = "reset" /\ ~m.st[s].cleanAtWant
+        owing == {s \in DOMAIN m.st : /\ m.st[s].want = "reset" /\ ~m.st[s].cleanAtWant /\ ~m.st[s].apiCleanAtWant
                                        /\ m.st[s].rstOut = 0 /\ m.st[s].i # "rst"
                                        /\ m.st[s].o # "idle"}
         m4 == IF \E s \in DOMAIN m.st : m.st[s].want = "reset"
